@@ -93,6 +93,23 @@ type BlockRec struct {
 	Before    *rm.Model // model before the block
 	After     *rm.Model
 	UD        u.UpdateData
+	// Shared: the instances are handed these very slices, without defensive copies, the way a
+	// caller that trusts C17 would (World.Shared)
+	Shared bool
+}
+
+func (rec *BlockRec) hs(x []Hash) []Hash {
+	if rec.Shared {
+		return x
+	}
+	return cloneHashes(x)
+}
+
+func (rec *BlockRec) pr(p u.Proof) u.Proof {
+	if rec.Shared {
+		return p
+	}
+	return cloneProof(p)
 }
 
 // World runs a history against the model and a set of instances.
@@ -103,6 +120,8 @@ type World struct {
 	Stump u.Stump
 	Insts []*Inst
 	Recs  []*BlockRec
+	// Shared: block records are passed to the instances without defensive copies
+	Shared bool
 	// LeafOverride, if set, may replace the hash of the addIdx-th leaf added by the
 	// block that is being prepared (blockIdx = number of blocks committed so far;
 	// rec holds the state before the block, the deleted hashes and, in AddHashes,
@@ -279,7 +298,7 @@ func cloneProof(p u.Proof) u.Proof {
 
 // PrepareBlock computes the block record (hashes, model proof) without applying it.
 func (w *World) PrepareBlock(b gen.Block) *BlockRec {
-	rec := &BlockRec{Blk: b, Before: w.M.Clone(), PrevN: w.M.N()}
+	rec := &BlockRec{Blk: b, Before: w.M.Clone(), PrevN: w.M.N(), Shared: w.Shared}
 	f := w.M.Forest()
 	rec.PrevRoots = cloneHashes(f.Roots)
 	for _, s := range b.Dels {
@@ -344,12 +363,16 @@ func ApplyToInst(in *Inst, rec *BlockRec, fail failFn) bool {
 		}
 	}
 	if in.Partial() && len(rec.DelHashes) > 0 && !(allRemembered && rec.PrevN%2 == 0) {
-		if err := in.MP.Verify(cloneHashes(rec.DelHashes), cloneProof(rec.Proof), true); err != nil {
+		if err := in.MP.Verify(rec.hs(rec.DelHashes), rec.pr(rec.Proof), true); err != nil {
 			fail(in.Cfg.Kind+".Verify(remember)", "error-on-honest-proof", "", fmt.Sprintf("%s: %v", in.Name, err))
 			return false
 		}
 	}
-	if err := in.U.Modify(append([]u.Leaf(nil), rec.Adds...), cloneHashes(rec.DelHashes), cloneProof(rec.Proof)); err != nil {
+	adds := rec.Adds
+	if !rec.Shared {
+		adds = append([]u.Leaf(nil), rec.Adds...)
+	}
+	if err := in.U.Modify(adds, rec.hs(rec.DelHashes), rec.pr(rec.Proof)); err != nil {
 		fail(in.Cfg.Kind+".Modify", "error-on-honest-block", "", fmt.Sprintf("%s: %v", in.Name, err))
 		return false
 	}
